@@ -55,6 +55,10 @@ type Env struct {
 	// OnRead, when set, is called before every read of a flat file (a
 	// scheduling point for the cooperative scheduler).
 	OnRead func()
+	// OnWrite, when set, is called before every write to a flat file with
+	// the file's short name ("block" / "filter"): a parking point for
+	// harnesses that let a write take its time.
+	OnWrite func(file string)
 
 	Steps     int // durable steps performed
 	Deviated  []string
@@ -205,6 +209,9 @@ func (w *wfile) Write(p []byte) (int, error) {
 	e := w.env
 	if len(p) == 0 {
 		return w.File.Write(p)
+	}
+	if e.OnWrite != nil {
+		e.OnWrite(w.short)
 	}
 	alts := []alt{{name: "ok", n: -1}}
 	if e.Faults && e.faultsThisOp < e.MaxFaultsPerOp {
